@@ -415,10 +415,14 @@ def structure_function_vk(seperation, r0, L0):
         ndarray, float: Structure function for seperation(s)
     """
     ## theoretical structure function
+    seperation = numpy.asarray(seperation, dtype=float)
+    # at zero separation x^(5/6) K_5/6(2 pi x) is 0 * inf; its limit there makes the bracket vanish: D(0) = 0
+    with numpy.errstate(invalid="ignore"):
+        bessel_term = (2 * numpy.pi ** (5. / 6.) * ((seperation) / L0) ** (5. / 6.)
+                       / scipy.special.gamma(5. / 6.)
+                       * scipy.special.kv(5. / 6., (2 * numpy.pi * seperation) / L0))
     D_vk = (    0.17253 * (L0 / (r0)) ** (5. / 3.)
-                * (1 - 2 * numpy.pi ** (5. / 6.) * ((seperation) / L0) ** (5. / 6.)
-                / scipy.special.gamma(5. / 6.)
-                * scipy.special.kv(5. / 6., (2 * numpy.pi * seperation) / L0))
+                * numpy.where(seperation == 0, 0., 1 - bessel_term)
             )
 
     return D_vk
